@@ -1,0 +1,51 @@
+//! Lock wrappers that put a scheduling point in front of every acquisition and otherwise
+//! delegate to the real lock, returning the real guard types.
+
+use super::{point, Label};
+
+#[derive(Debug)]
+pub struct RwLock<T>(tokio::sync::RwLock<T>);
+
+impl<T> RwLock<T> {
+    pub fn new(value: T) -> Self {
+        Self(tokio::sync::RwLock::new(value))
+    }
+
+    pub async fn read(&self) -> tokio::sync::RwLockReadGuard<'_, T> {
+        point(Label::LockRead).await;
+        self.0.read().await
+    }
+
+    pub async fn write(&self) -> tokio::sync::RwLockWriteGuard<'_, T> {
+        point(Label::LockWrite).await;
+        self.0.write().await
+    }
+}
+
+#[derive(Debug)]
+pub struct ASRwLock<T>(async_lock::RwLock<T>);
+
+impl<T> ASRwLock<T> {
+    pub fn new(value: T) -> Self {
+        Self(async_lock::RwLock::new(value))
+    }
+
+    pub fn into_inner(self) -> T {
+        self.0.into_inner()
+    }
+
+    pub async fn read(&self) -> async_lock::RwLockReadGuard<'_, T> {
+        point(Label::BlobRead).await;
+        self.0.read().await
+    }
+
+    pub async fn write(&self) -> async_lock::RwLockWriteGuard<'_, T> {
+        point(Label::BlobWrite).await;
+        self.0.write().await
+    }
+
+    pub async fn upgradable_read(&self) -> async_lock::RwLockUpgradableReadGuard<'_, T> {
+        point(Label::BlobUpgradable).await;
+        self.0.upgradable_read().await
+    }
+}
